@@ -229,7 +229,7 @@ type runner struct {
 }
 
 func newRunner(features map[string]string) (*runner, error) {
-	e, err := getEnv(9)
+	e, err := getEnv(1) // a fresh server per case: the logical clock restarts, so a replay allots the same dates
 	if err != nil {
 		return nil, err
 	}
